@@ -309,3 +309,148 @@ func idpFacts(b *strings.Builder, root *pkgFiles) {
 	b.WriteString("/-- conditions under which `MakeAssertionEl` sends the signed assertion unencrypted -/\n")
 	writeStrList(b, "idpPlaintextConditions", plaintextOn)
 }
+
+// spFacts: structural facts of the service provider's signature handling (C01).
+func spFacts(b *strings.Builder, root *pkgFiles) {
+	f := root.files["service_provider.go"]
+	if f == nil {
+		fail("service_provider.go not found")
+		return
+	}
+	// 1. every function that calls xrv.Validate
+	var xrvSites []string
+	for _, d := range f.Decls {
+		fd, ok := d.(*ast.FuncDecl)
+		if !ok || fd.Body == nil {
+			continue
+		}
+		n := 0
+		ast.Inspect(fd.Body, func(nd ast.Node) bool {
+			if ce, ok := nd.(*ast.CallExpr); ok && exprStr(ce.Fun) == "xrv.Validate" {
+				n++
+			}
+			return true
+		})
+		for i := 0; i < n; i++ {
+			xrvSites = append(xrvSites, fd.Name.Name)
+		}
+	}
+	writeStrList(b, "xrvCallSites", xrvSites)
+
+	// 2. which key-descriptor uses getIDPSigningCerts accepts
+	var uses []string
+	if fd := findFunc(root, "service_provider.go", "getIDPSigningCerts"); fd != nil {
+		ast.Inspect(fd.Body, func(nd ast.Node) bool {
+			sw, ok := nd.(*ast.SwitchStmt)
+			if !ok || exprStr(sw.Tag) != "keyDescriptor.Use" {
+				return true
+			}
+			for _, st := range sw.Body.List {
+				cc := st.(*ast.CaseClause)
+				if cc.List == nil {
+					uses = append(uses, "<default>")
+				}
+				for _, e := range cc.List {
+					uses = append(uses, exprStr(e))
+				}
+			}
+			return false
+		})
+	} else {
+		fail("getIDPSigningCerts not found")
+	}
+	writeStrList(b, "signingCertUses", uses)
+
+	// 3. the conditions under which findChildren skips or fails a child
+	var conds []string
+	if fd := findFunc(root, "service_provider.go", "findChildren"); fd != nil {
+		ast.Inspect(fd.Body, func(nd ast.Node) bool {
+			if is, ok := nd.(*ast.IfStmt); ok {
+				conds = append(conds, srcText(root.fset, is.Cond))
+			}
+			return true
+		})
+	} else {
+		fail("findChildren not found")
+	}
+	writeStrList(b, "findChildrenConds", conds)
+
+	// 4. parseAssertion validates and unmarshals the same element
+	var pa []string
+	if fd := findFunc(root, "service_provider.go", "parseAssertion"); fd != nil {
+		ast.Inspect(fd.Body, func(nd ast.Node) bool {
+			if ce, ok := nd.(*ast.CallExpr); ok {
+				switch exprStr(ce.Fun) {
+				case "sp.validateSignature", "unmarshalElement", "sp.validateAssertion":
+					if len(ce.Args) > 0 {
+						pa = append(pa, exprStr(ce.Fun)+"("+srcText(root.fset, ce.Args[0])+")")
+					}
+				}
+			}
+			return true
+		})
+	} else {
+		fail("parseAssertion not found")
+	}
+	writeStrList(b, "parseAssertionCalls", pa)
+
+	// 5. what parseResponse does with the Response signature verdict
+	var sw5 []string
+	if fd := findFunc(root, "service_provider.go", "parseResponse"); fd != nil {
+		ast.Inspect(fd.Body, func(nd ast.Node) bool {
+			sw, ok := nd.(*ast.SwitchStmt)
+			if !ok || exprStr(sw.Tag) != "responseSignatureErr" {
+				return true
+			}
+			for _, st := range sw.Body.List {
+				cc := st.(*ast.CaseClause)
+				lhs := "<default>"
+				if cc.List != nil {
+					var l []string
+					for _, e := range cc.List {
+						l = append(l, exprStr(e))
+					}
+					lhs = strings.Join(l, ",")
+				}
+				body := ""
+				if len(cc.Body) > 0 {
+					body = srcText2(root.fset, cc.Body[0])
+				}
+				sw5 = append(sw5, lhs+" => "+body)
+			}
+			return false
+		})
+	} else {
+		fail("parseResponse not found")
+	}
+	writeStrList(b, "responseSignatureSwitch", sw5)
+
+	// 6. how validateSignature looks for the Signature and which element it hands to goxmldsig
+	var vs []string
+	if fd := findFunc(root, "service_provider.go", "validateSignature"); fd != nil {
+		ast.Inspect(fd.Body, func(nd ast.Node) bool {
+			if ce, ok := nd.(*ast.CallExpr); ok {
+				switch exprStr(ce.Fun) {
+				case "findChild", "validationContext.Validate", "etreeutils.NSDetatch":
+					var as []string
+					for _, a := range ce.Args {
+						as = append(as, srcText(root.fset, a))
+					}
+					vs = append(vs, exprStr(ce.Fun)+"("+strings.Join(as, ", ")+")")
+				}
+			}
+			return true
+		})
+	} else {
+		fail("validateSignature not found")
+	}
+	writeStrList(b, "validateSignatureCalls", vs)
+}
+
+func srcText2(fset *token.FileSet, n ast.Node) string {
+	var buf bytes.Buffer
+	if err := printer.Fprint(&buf, fset, n); err != nil {
+		return "<unprintable>"
+	}
+	return strings.Join(strings.Fields(buf.String()), " ")
+}
